@@ -328,6 +328,9 @@ def const(node, env=None):
     if isinstance(node, ast.Call) and isinstance(node.func, ast.Name) and not node.keywords and env and \
             node.func.id in env.get('__funcs__', ()):
         return env['__funcs__'][node.func.id](*[const(a, env) for a in node.args])     # pure helper folded by fold_func
+    if isinstance(node, ast.Call) and isinstance(node.func, ast.Attribute) and not node.keywords and env and \
+            norm(node.func) in env.get('__calls__', ()):
+        return env['__calls__'][norm(node.func)](*[const(a, env) for a in node.args])  # a method the caller of the fold models
     if isinstance(node, ast.Call) and isinstance(node.func, ast.Name) and not node.keywords:
         fn = node.func.id
         args = [const(a, env) for a in node.args]
@@ -388,6 +391,21 @@ def fold_block(stmts, env):
         if isinstance(st, ast.Expr) and (isinstance(st.value, ast.Constant) or (isinstance(st.value, ast.Call) and norm(st.value.func).startswith(('log.', 'self.log.')))):
             continue
         if isinstance(st, ast.Pass):
+            continue
+        if isinstance(st, ast.Expr) and isinstance(st.value, ast.Call) and norm(st.value.func) in env.get('__calls__', ()):
+            const(st.value, env)
+            continue
+        if isinstance(st, ast.While) and not st.orelse:
+            if any(isinstance(x, (ast.Break, ast.Continue)) for x in ast.walk(st)):
+                raise NotConst('loop with break / continue')
+            cycles = 0
+            while const(st.test, env):
+                cycles += 1
+                if cycles > 10000:
+                    raise NotConst('loop does not end')
+                r = fold_block(st.body, env)
+                if r[0] != 'fall':
+                    return r
             continue
         if isinstance(st, ast.Assign) and len(st.targets) == 1:
             v = const(st.value, env)
